@@ -141,7 +141,9 @@ SubElem(banc, x, y) ==
   \* below object only, and a passed class satisfies it iff it is one of its instances
   \* (via = "base": not the metaclass itself but an ordinary class the metaclass inherits from - an ABC, a
   \* protocol-like mixin; the classes cs are its instances just the same, and the metaclass is below it)
-  ELSE IF x.k = "metaof" THEN (y.k = "cls" /\ y.c = 1) \/ x = y
+  \* (a metaclass is below type[object], the class of all classes; its ordinary base class is not: it also has
+  \* instances that are no classes at all)
+  ELSE IF x.k = "metaof" THEN (y.k = "cls" /\ y.c = 1 /\ "via" \notin DOMAIN x) \/ x = y
                               \/ (y.k = "metaof" /\ y.m = x.m /\ "via" \in DOMAIN y /\ "via" \notin DOMAIN x)
   ELSE IF y.k = "metaof" THEN x.k = "cls" /\ x.c \in {y.cs[j] : j \in DOMAIN y.cs}
   ELSE IF x.k = "cls" /\ y.k = "cls" THEN y.c \in banc[x.c]
